@@ -53,7 +53,7 @@ theorem C07_single_segment_nolinks (t : Tree_) (s : Bytes) (rl : Bool)
 
 /-- cycles end in an error, not in non-termination (tests on literal trees; the general statement is `C07_terminates` below) -/
 example : realpath [([0x6c, 0x31], .link [0x6c, 0x32]), ([0x6c, 0x32], .link [0x6c, 0x31])] ⟨[0x6c, 0x31], -1⟩ true
-    = .err .misc ⟨[0x6c, 0x31], -1⟩ := by decide +kernel
+    = .err .recursion ⟨[0x6c, 0x31], -1⟩ := by decide +kernel
 example : (resolveLink [([0x6c, 0x31], .link [0x6c, 0x31])] 3 [0x6c, 0x31] ⟨[0x6c, 0x31], -1⟩ []).1
     = .err .recursion ⟨[0x6c, 0x31], -1⟩ := by decide +kernel
 /-- an absolute target is re-rooted at the base; excess `..` stays at the base (tests) -/
